@@ -1,7 +1,8 @@
 """C09 — colour difference measures satisfy their defining formulas and metric laws."""
+import re
 from fractions import Fraction as Fr
 
-from . import alg, sym, poly
+from . import alg, sym, poly, facts
 from .common import Session, check_value, check_ref, staged_check, impl_methods, apps_of, atoms_of
 from .sym import Struct, Tuple, Ite, Opaque
 from .poly import RatFunc
@@ -271,7 +272,79 @@ def run(F, rep, tier="quick", extra=None, only=None):
             check_value(rep, "ALG-REF", "wcag:" + m, S4, b, v, exp, sample="relative_contrast(p, q) >= %s (WCAG 2.1)" % t)
         except (Opaque, poly.TooBig) as ex:
             rep.fail("ALG-REF", "wcag:" + m, "uninterpretable: %s" % ex, F.loc(b))
+    check_deprecated_contrast(F, rep)
     return {"level": "other"}
+
+
+def check_deprecated_contrast(F, rep):
+    """The deprecated RelativeContrast API (still public, still the only contrast API of the non-RGB types): the free function
+    contrast_ratio is the WCAG ratio and symmetric, the five predicates are its thresholds, every impl feeds it the luminance (Y of the
+    colour's XYZ / the linear luma) of self and other, in that pairing; Wcag21RelativeContrast::relative_luminance is the conversion to
+    linear D65 luma of the colour itself."""
+    S = Session(F)
+    R = S.R
+    try:
+        b = F.fn("relative_contrast::contrast_ratio")
+        args = S.args(b, ["l1", "l2"])
+        v, _ = S.ev.eval_body(b, args)
+        l1, l2 = args
+        exp = R.ite(R.gt(l1, l2), R.div(R.add("0.05", l1), R.add("0.05", l2)), R.div(R.add("0.05", l2), R.add("0.05", l1)))
+        check_value(rep, "ALG-REF", "wcag(deprecated):contrast_ratio", S, b, v, exp, sample="(0.05 + lighter) / (0.05 + darker)")
+        # (symmetry is a property of the reference: both arms are 1 at l1 == l2)
+    except (facts.AnchorMissing, Opaque, poly.TooBig) as ex:
+        rep.fail("ALG-REF", "wcag(deprecated):contrast_ratio", "uninterpretable: %s" % ex)
+    TH = {"has_min_contrast_text": "4.5", "has_min_contrast_large_text": "3", "has_enhanced_contrast_text": "7",
+          "has_enhanced_contrast_large_text": "4.5", "has_min_contrast_graphics": "3"}
+    for m, t in TH.items():
+        try:
+            b = F.fn("relative_contrast::RelativeContrast::" + m)
+            args = S.args(b, ["p", "q"])
+            v, _ = S.ev.eval_body(b, args)
+            ratio = S.ev.uninterpreted(_first_name(v, "get_contrast_ratio"), args)
+            check_value(rep, "ALG-REF", "wcag(deprecated):" + m, S, b, v, R.ge(ratio, t), sample="get_contrast_ratio(p, q) >= %s (WCAG 2.1)" % t)
+        except (facts.AnchorMissing, Opaque, poly.TooBig) as ex:
+            rep.fail("ALG-REF", "wcag(deprecated):" + m, "uninterpretable: %s" % ex)
+    # impls: contrast_ratio(lum(self), lum(other)) with the same luminance function on both sides
+    S2 = Session(F, no_inline={"relative_contrast::contrast_ratio"})
+    n = 0
+    for im, ms in impl_methods(F, "relative_contrast::RelativeContrast"):
+        b = ms.get("get_contrast_ratio")
+        if b is None:
+            continue
+        n += 1
+        key = "get_contrast_ratio[%s]" % im["self_s"]
+        try:
+            args = S2.args(b, ["p", "q"])
+            v, _ = S2.ev.eval_body(b, args)
+            aps = _find_apps(v, lambda nme: nme.startswith("relative_contrast::contrast_ratio"))
+            ok = isinstance(v, RatFunc) and len(aps) == 1 and sym._single_atom(v) is aps[0] and len(aps[0].args) == 2
+            detail = repr(v)[:260]
+            if ok:
+                a1, a2 = aps[0].args
+                r1, r2 = repr(a1), repr(a2)
+                # the two luminances are the same function of p and of q: swapping the names maps one onto the other
+                swap = lambda s_: re.sub(r"\b([pq])\b", lambda m_: "q" if m_.group(1) == "p" else "p", s_)
+                ok = swap(r1) == r2 and re.search(r"\bp\b", r1) is not None and re.search(r"\bq\b", r1) is None
+                # and that function is a luminance: Y of the XYZ conversion, or the (linear) luma
+                ok = ok and (re.search(r"proj\.y\(|\.y\b|\.luma\b|proj\.luma\(", r1) is not None)
+                detail = "contrast_ratio(%s, %s)" % (r1[:110], r2[:110])
+            rep.ob("ALG-REF", "wcag(deprecated):" + key, ok, detail, F.loc(b))
+        except (Opaque, poly.TooBig) as ex:
+            rep.fail("ALG-REF", "wcag(deprecated):" + key, "uninterpretable: %s" % ex, F.loc(b))
+    rep.floor("RelativeContrast impls", n, 16)
+    n = 0
+    for im, ms in impl_methods(F, "color_difference::Wcag21RelativeContrast"):
+        b = ms.get("relative_luminance")
+        if b is None:
+            continue
+        n += 1
+        key = "relative_luminance[%s]" % im["self_s"]
+        calls = [(F.S[x["c"]["d"]].split("::")[-1], F.ty(x)) for x, _p in facts.walk(b["body"]) if isinstance(x.get("c"), dict) and "d" in x["c"]]
+        recv = [x for x, _p in facts.walk(b["body"]) if x.get("k") == "mcall"]
+        ok = len(calls) == 1 and calls[0][0] == "into_color" and "Linear<white_point::D65>" in (calls[0][1] or "") and len(recv) == 1 \
+            and recv[0]["r"].get("k") == "path" and recv[0]["r"].get("res", {}).get("n") == "self"
+        rep.ob("ALG-REF", "wcag:" + key, ok, "calls %s on self" % calls, F.loc(b), nontrivial=False)
+    rep.floor("Wcag21RelativeContrast impls", n, 2)
 
 
 def _wcag_lum_name(v):
